@@ -77,8 +77,13 @@ Definition is_manifest (mt : N) : bool := (1 <=? mt) && (mt <=? 5).
 (* b_pre_hash / b_pre_links describe the first d_size bytes of the delivered bytes, for the
    descriptor of the Push that carries the blob (equal to b_hash / b_links when nothing
    follows them): content.LimitedStorage hands only that prefix to the storage. *)
-Record blob := mkBlob { b_hash : N; b_len : N; b_links : list gkey;
-                        b_pre_hash : N; b_pre_links : list gkey }.
+Record blob := mkBlobT { b_hash : N; b_len : N; b_links : list gkey;
+                         b_pre_hash : N; b_pre_links : list gkey;
+                         (* successor entries that carry an org.opencontainers.image.title
+                            annotation (key, name id), in order: the file store restores them *)
+                         b_tl : list (gkey * N); b_pre_tl : list (gkey * N) }.
+Definition mkBlob (h l : N) (ls : list gkey) (ph : N) (pl : list gkey) : blob :=
+  mkBlobT h l ls ph pl [] [].
 
 (* content.ReadAll / ioutil.CopyBuffer + VerifyReader: size and digest must match *)
 Definition verify (d : desc) (c : blob) : bool := (d_dig d =? b_hash c) && (d_size d =? b_len c).
@@ -173,15 +178,20 @@ Definition spec_oci_tag (d : desc) (r : ref) (t : list (ref * desc)) : list (ref
   let t1 := if ref_eqb r (RDig (d_dig d)) then t else put ref_eqb (RDig (d_dig d)) d t in
   put ref_eqb r d t1.
 
-(* Store.delete: drop every reference whose descriptor content.Equal the target.
+(* Store.delete: drop every reference to the digest of the target (blobs are stored by
+   digest; before the audit-F3 repair the test was content.Equal, which left references
+   tagged with another media type -- e.g. the application/octet-stream descriptor that
+   Resolve(<digest>) hands out for a plain blob -- dangling).
    [untag_fold] walks a snapshot of the tag map (Go map iteration: any order) and
    deletes the matching references one by one; [spec_untag_equal] is the order-free
    reading (Proofs/Stores.v: they agree on every lookup, for every snapshot order). *)
+Definition eq_target (d' : desc) (k : gkey) : bool := d_dig d' =? k_dig k.
+
 Definition untag_fold (k : gkey) (snapshot t : list (ref * desc)) : list (ref * desc) :=
-  fold_left (fun acc e => if gkey_eqb (gk (snd e)) k then del ref_eqb (fst e) acc else acc) snapshot t.
+  fold_left (fun acc e => if eq_target (snd e) k then del ref_eqb (fst e) acc else acc) snapshot t.
 
 Definition spec_untag_equal (k : gkey) (t : list (ref * desc)) : list (ref * desc) :=
-  filter (fun e => negb (gkey_eqb (gk (snd e)) k)) t.
+  filter (fun e => negb (eq_target (snd e) k)) t.
 
 Definition ospec_step (U : N -> gkey) (s : ospec) (o : op) : ospec * out :=
   match o with
@@ -354,7 +364,7 @@ Definition oci_tag (d : desc) (r : ref) (s : resolver) : resolver :=
 (* Store.delete's loop over tagResolver.Map(): untag every reference whose
    descriptor content.Equal the target; [snapshot] is the iteration order *)
 Definition oci_untag_equal (k : gkey) (snapshot : list (ref * desc)) (s : resolver) : resolver :=
-  fold_left (fun acc e => if gkey_eqb (gk (snd e)) k then res_untag (fst e) acc else acc) snapshot s.
+  fold_left (fun acc e => if eq_target (snd e) k then res_untag (fst e) acc else acc) snapshot s.
 
 Definition oci_step (s : oci_store) (o : op) : oci_store * out :=
   match o with
@@ -482,21 +492,63 @@ Definition file_fetch (d : desc) (s : file_store) : option blob :=
 Definition file_exists (d : desc) (s : file_store) : bool :=
   name_ok d s && (is_some (get N.eqb (d_dig d) (f_d2p s)) || is_some (get gkey_eqb (gk d) (f_cas s))).
 
+(* resolveWritePath: name 6 of the universe is "../x" -- refused (path traversal) *)
+Definition bad_name (n : N) : bool := n =? 6.
+
 (* io.LimitReader(content, expected.Size): bytes after the first Size are never read *)
 Definition limit_reader (d : desc) (c : blob) : blob :=
   if d_size d <? b_len c
-  then mkBlob (b_pre_hash c) (d_size d) (b_pre_links c) (b_pre_hash c) (b_pre_links c)
+  then mkBlobT (b_pre_hash c) (d_size d) (b_pre_links c) (b_pre_hash c) (b_pre_links c) (b_pre_tl c) (b_pre_tl c)
   else c.
 
-Inductive ferr := FDuplicateName | FOverwrite.
+Inductive ferr := FDuplicateName | FOverwrite | FTraversal.
 
 Inductive fout := FO (o : out) | FE (e : ferr).
 
-(* restoreDuplicates / graph.Index(ctx, s, expected) after a successful store:
-   content.Successors fetches the content through the store itself (content.FetchAll
-   verifies what it reads against the descriptor), for manifest media types only.  The
-   verification is modelled on the hash: equal hash, equal bytes (collision freedom). *)
-Definition file_index_after (d : desc) (s1 : file_store) : file_store * fout :=
+(* Store.push of a named descriptor (key k, name n) with content c, under the name's lock:
+   None = written.  [fixed]: pushFile removes the file it created when the content does not
+   verify; [fixed = false] is the code as first found. *)
+Definition file_named_push (fixed disable_overwrite : bool) (s : file_store) (k : gkey) (n : N) (c : blob)
+  : file_store * option fout :=
+  if mem N.eqb n (f_names s) then (s, Some (FE FDuplicateName))
+  else if bad_name n then (s, Some (FE FTraversal))
+  else if disable_overwrite && is_some (get N.eqb (path_of n) (f_disk s)) then (s, Some (FE FOverwrite))
+  else if (k_dig k =? b_hash c) && (k_size k =? b_len c)
+  then (mkFile (n :: f_names s) (put N.eqb (k_dig k) (path_of n) (f_d2p s))
+               (put N.eqb (path_of n) c (f_disk s)) (f_cas s) (f_res s) (f_graph s), None)
+  else (* os.Create truncated/created the file, the copy failed verification *)
+    (mkFile (f_names s) (f_d2p s)
+            (if fixed then del N.eqb (path_of n) (f_disk s) else put N.eqb (path_of n) c (f_disk s))
+            (f_cas s) (f_res s) (f_graph s), Some (FO (OErr EMismatch))).
+
+(* restoreDuplicatesFrom: for every titled successor whose name does not exist yet, fetch
+   the content by its plain descriptor and push it under that name; not-found and
+   duplicate-name are skipped, any other error aborts (and is what Push returns) *)
+Fixpoint file_restore (fixed ov : bool) (tl : list (gkey * N)) (s : file_store) : file_store * option fout :=
+  match tl with
+  | [] => (s, None)
+  | (k, n) :: rest =>
+      if (n =? 0) || mem N.eqb n (f_names s) then file_restore fixed ov rest s
+      else match file_fetch (mkDesc (k_mt k) (k_dig k) (k_size k) 0) s with
+           | None => file_restore fixed ov rest s
+           | Some c2 =>
+               (* a second name for the very file the content is read from: os.Create truncates
+                  the source before it is copied (an empty file stays what it was) *)
+               let c2 := match get N.eqb (k_dig k) (f_d2p s) with
+                         | Some p => if (p =? path_of n) && negb (b_len c2 =? 0) then mkBlob 0 0 [] 0 [] else c2
+                         | None => c2
+                         end in
+               match file_named_push fixed ov s k n c2 with
+               | (s1, None) => file_restore fixed ov rest s1
+               | (s1, Some (FE FDuplicateName)) => file_restore fixed ov rest s1
+               | (s1, Some e) => (s1, Some e)
+               end
+           end
+  end.
+
+(* graph.Index(ctx, s, expected): content.Successors fetches the content through the store
+   (content.FetchAll verifies it; modelled on the hash: equal hash, equal bytes) *)
+Definition file_index (d : desc) (s1 : file_store) : file_store * fout :=
   if is_manifest (d_mt d) then
     match file_fetch d s1 with
     | None => (s1, FO (OErr ENotFound))
@@ -509,19 +561,39 @@ Definition file_index_after (d : desc) (s1 : file_store) : file_store * fout :=
   else (mkFile (f_names s1) (f_d2p s1) (f_disk s1) (f_cas s1) (f_res s1)
                (g_index d [] (f_graph s1)), FO OOk).
 
-(* [fixed]: pushFile removes the file it created when the content does not verify
-   (the fix: commit on the repository branch); [fixed = false] is the code as found *)
+(* after a successful store: restoreDuplicates (reads the manifest back), then graph.Index *)
+Definition file_index_after (fixed ov : bool) (d : desc) (s1 : file_store) : file_store * fout :=
+  if is_manifest (d_mt d) then
+    match file_fetch d s1 with
+    | None => (s1, FO (OErr ENotFound))
+    | Some c1 =>
+        if d_dig d =? b_hash c1
+        then match file_restore fixed ov (b_tl c1) s1 with
+             | (s2, Some e) => (s2, e)      (* "failed to restore duplicated file" -- after the store *)
+             | (s2, None) => file_index d s2
+             end
+        else (s1, FO (OErr EMismatch))
+    end
+  else file_index d s1.
+
 Definition file_step (fixed ignore_noname disable_overwrite : bool)
            (s : file_store) (o : op) : file_store * fout :=
   match o with
   | Push d c =>
-      let index_after := file_index_after d in
+      let index_after := file_index_after fixed disable_overwrite d in
       if d_name d =? 0 then
         if ignore_noname then
           (* errSkipUnnamed: the content is discarded; restoreDuplicatesOfSkipped still reads a
-             manifest with content.ReadAll (full verification, no LimitReader) to restore the
-             titled successors (none in this universe) *)
-          if is_manifest (d_mt d) && negb (verify d c) then (s, FO (OErr EMismatch)) else (s, FO OOk)
+             manifest with content.ReadAll (full verification, no LimitReader) and restores its
+             titled successors *)
+          if is_manifest (d_mt d) then
+            if verify d c
+            then match file_restore fixed disable_overwrite (b_tl c) s with
+                 | (s2, Some e) => (s2, e)
+                 | (s2, None) => (s2, FO OOk)
+                 end
+            else (s, FO (OErr EMismatch))
+          else (s, FO OOk)
         else match get gkey_eqb (gk d) (f_cas s) with
              | Some _ => (s, FO (OErr EAlreadyExists))
              | None =>
@@ -532,16 +604,10 @@ Definition file_step (fixed ignore_noname disable_overwrite : bool)
                                           (put gkey_eqb (gk d) c (f_cas s)) (f_res s) (f_graph s))
                  else (s, FO (OErr EMismatch))
              end
-      else if mem N.eqb (d_name d) (f_names s) then (s, FE FDuplicateName)
-      else if disable_overwrite && is_some (get N.eqb (path_of (d_name d)) (f_disk s)) then (s, FE FOverwrite)
-      else if verify d c
-      then index_after (mkFile (d_name d :: f_names s) (put N.eqb (d_dig d) (path_of (d_name d)) (f_d2p s))
-                               (put N.eqb (path_of (d_name d)) c (f_disk s)) (f_cas s) (f_res s) (f_graph s))
-      else (* os.Create truncated/created the file, the copy failed verification *)
-        (mkFile (f_names s) (f_d2p s)
-                (if fixed then del N.eqb (path_of (d_name d)) (f_disk s)
-                 else put N.eqb (path_of (d_name d)) c (f_disk s))
-                (f_cas s) (f_res s) (f_graph s), FO (OErr EMismatch))
+      else match file_named_push fixed disable_overwrite s (gk d) (d_name d) c with
+           | (s1, None) => index_after s1
+           | (s1, Some e) => (s1, e)
+           end
   | Fetch d =>
       match file_fetch d s with
       | Some c => (s, FO (OBytes (b_hash c) (b_len c)))
